@@ -10,6 +10,7 @@ import (
 	"go/constant"
 	"go/token"
 	"go/types"
+	"math/big"
 	"strings"
 
 	"golang.org/x/tools/go/ssa"
@@ -54,6 +55,23 @@ func guardsOf(fn *ssa.Function) []guard {
 					op = negateOp(op)
 				}
 				gs = append(gs, guard{iff: iff, x: x.X, y: x.Y, op: op})
+				// `x >> 63 != 0` on an unsigned 64-bit value is `x >= 2^63` (and the sign test)
+				if sh, isSh := stripConv(x.X).(*ssa.BinOp); isSh && sh.Op == token.SHR && (op == token.NEQ || op == token.EQL) {
+					if k, isK := constInt(sh.Y); isK && k == 63 {
+						if z, isZ := constInt(x.Y); isZ && z == 0 {
+							if bt, isB := sh.X.Type().Underlying().(*types.Basic); isB && bt.Kind() == types.Uint64 {
+								big, _ := new(big.Int).SetString("9223372036854775808", 10)
+								two63 := ssa.NewConst(constant.Make(big), types.Typ[types.Uint64])
+								zero := ssa.NewConst(constant.MakeInt64(0), types.Typ[types.Int64])
+								if op == token.NEQ {
+									gs = append(gs, guard{iff: iff, x: sh.X, y: two63, op: token.GEQ}, guard{iff: iff, x: sh.X, y: zero, op: token.LSS})
+								} else {
+									gs = append(gs, guard{iff: iff, x: sh.X, y: two63, op: token.LSS}, guard{iff: iff, x: sh.X, y: zero, op: token.GEQ})
+								}
+							}
+						}
+					}
+				}
 				// integer comparisons with a constant have two spellings (x > k  <=>  x >= k+1):
 				// add the other one so that either matches an obligation
 				// `x >= 2^63` on an unsigned 64-bit value is the sign test `int64(x) < 0`
